@@ -110,7 +110,7 @@ Section Seq.
     set (l := r_ret (get_rec g h)).
     destruct (st_cur_moves g h (classic_kept plist l) Hlt) as (M1 & M2 & M3 & M4).
     eexists _, _, _. split; [reflexivity|]. split; [exact M1|]. split; [exact M2|]. split; [exact M3|]. split.
-    - intros p. rewrite M4. cnt_norm. rewrite H1'. rewrite (classic_split plist l p). lia.
+    - intros p. rewrite M4. subst l. cnt_norm. rewrite H1'. rewrite (classic_split plist (r_ret (get_rec g h)) p). lia.
     - intros p. destruct (H1 p). split; cnt_norm; lia.
   Qed.
 
@@ -120,9 +120,6 @@ Section Seq.
     intros Hlt. unfold inplace_scan. cbn [run_seq a_ld_cur vL].
     destruct (r_ret (get_rec g h)) as [|x0 l0] eqn:El.
     - cbn [run_seq]. eexists _, _, _. split; [reflexivity|]. repeat split; auto.
-      + intros p. cnt_norm. rewrite El. lia.
-      + cnt_norm. reflexivity.
-      + cnt_norm. reflexivity.
     - set (l := x0 :: l0) in *. destruct (existsb Z.odd l).
       + destruct (seq_classic_scan g h Hlt) as (g' & es & kept & E & M1 & M2 & M3 & M4 & M5). rewrite E.
         eexists _, _, _. split; [reflexivity|]. split; [exact M1|]. split; [exact M2|]. split; [exact M3|]. split.
@@ -143,12 +140,15 @@ Section Seq.
     exists g' es, run_seq (scan c h) g = (g', es, tt) /\ moves g g' h es.
   Proof.
     intros Hlt. unfold scan. cbn [run_seq a_faa_scan]. rewrite run_seq_bind.
-    assert (Hs : exists g' es kept, run_seq (if cInplace c then inplace_scan c h else classic_scan c h) g = (g', es, kept) /\ moves g g' h es)
-      by (destruct (cInplace c); [now apply seq_inplace_scan|now apply seq_classic_scan]).
-    destruct Hs as (g' & es & kept & E & M1 & M2 & M3 & M4 & M5). rewrite E. cbn [run_seq].
-    eexists _, _. split; [reflexivity|]. split; [exact M1|]. split; [exact M2|]. split; [exact M3|]. split.
-    - intros p. cnt_norm. rewrite (M4 p). lia.
-    - intros p. destruct (M5 p). split; cnt_norm; lia.
+    destruct (cInplace c).
+    - destruct (seq_inplace_scan g h Hlt) as (g' & es & kept & E & M1 & M2 & M3 & M4 & M5). rewrite E. cbn [run_seq].
+      eexists _, _. split; [reflexivity|]. split; [exact M1|]. split; [exact M2|]. split; [exact M3|]. split.
+      + intros p. cnt_norm. rewrite (M4 p). lia.
+      + intros p. destruct (M5 p). split; cnt_norm; lia.
+    - destruct (seq_classic_scan g h Hlt) as (g' & es & kept & E & M1 & M2 & M3 & M4 & M5). rewrite E. cbn [run_seq].
+      eexists _, _. split; [reflexivity|]. split; [exact M1|]. split; [exact M2|]. split; [exact M3|]. split.
+      + intros p. cnt_norm. rewrite (M4 p). lia.
+      + intros p. destruct (M5 p). split; cnt_norm; lia.
   Qed.
 
   (** hazards_.clear(): slots only *)
@@ -158,7 +158,7 @@ Section Seq.
       (forall r, r_ret (get_rec g' r) = r_ret (get_rec g r)) /\ only_disposes es /\ no_dispose es.
   Proof.
     induction js as [|j js IH]; intros g; cbn [clear_loop run_seq].
-    - exists g, []. repeat split; auto.
+    - exists g, []. split; [reflexivity|]. split; [reflexivity|]. split; [reflexivity|]. split; [reflexivity|]. split; [intros p; split; reflexivity|intros p; reflexivity].
     - cbn [a_st_slot]. destruct (IH (upd_rec g h (set_slot j 0%Z))) as (g' & es & E & M1 & M2 & M3 & M4 & M5). rewrite E.
       eexists _, _. split; [reflexivity|]. split; [rewrite M1; reflexivity|]. split; [rewrite M2; apply upd_rec_length|].
       split; [|split].
@@ -211,7 +211,7 @@ Section Seq.
       (forall p, tot p g = (cntE "dispose" p es + tot p g')%Z) /\ only_disposes es.
   Proof.
     induction l as [|h l' IH]; intros g Hl; cbn [detach_all_loop run_seq].
-    - exists g, []. repeat split; auto. intros p. cnt_norm. lia.
+    - exists g, []. split; [reflexivity|]. split; [reflexivity|]. split; [reflexivity|]. split; [intros p; cnt_norm; lia|intros p; split; reflexivity].
     - cbn [a_ld_owner vB]. assert (Hh : h < List.length (g_recs g)) by (apply Hl; now left).
       destruct (r_owner (get_rec g h)).
       + rewrite run_seq_bind. destruct (seq_free_thread_data g h Hh) as (g1 & es1 & E1 & M). rewrite E1.
@@ -235,7 +235,7 @@ Section Seq.
       (forall h, In h l -> r_ret (get_rec g' h) = []).
   Proof.
     induction l as [|h l' IH]; intros g; cbn [dtor_loop run_seq].
-    - exists g, []. repeat split; auto; [intros p; cnt_norm; lia|intros h []].
+    - exists g, []. split; [reflexivity|]. split; [reflexivity|]. split; [intros p; cnt_norm; lia|]. split; [intros p; split; reflexivity|]. split; [auto|intros h []].
     - cbn [a_ld_cur a_st_cur a_st_free vL].
       set (g1 := upd_rec (upd_rec g h (set_ret [])) h (set_free true)).
       destruct (IH g1) as (g2 & es2 & E2 & B2 & B3 & B4 & B5 & B6). rewrite E2.
@@ -247,12 +247,14 @@ Section Seq.
         - now rewrite get_upd_same.
         - rewrite upd_rec_ge by exact Hge. now rewrite get_rec_ge. }
       eexists _, _. split; [reflexivity|]. split; [lia|]. split; [|split; [|split]].
-      + intros p. cnt_norm. rewrite <- (B3 p). unfold tot.
-        destruct (Nat.lt_ge_cases h (List.length (g_recs g))) as [Hlt|Hge].
-        * rewrite (pend_change p g aux0 g1 aux0 h Hlen Hlt); [|intros r Hne; unfold effc; cbn; now apply Hret].
-          unfold effc; cbn. rewrite Hh. cbn. lia.
-        * rewrite (get_rec_ge g h Hge). cbn. rewrite (pend_ext p g aux0 g1 aux0 Hlen); [lia|].
-          intros r Hr. unfold effc; cbn. apply Hret. lia.
+      + intros p. cnt_norm. pose proof (B3 p) as HB.
+        assert (Hg : tot p g = (countZ p (r_ret (get_rec g h)) + tot p g1)%Z).
+        { unfold tot. destruct (Nat.lt_ge_cases h (List.length (g_recs g))) as [Hlt|Hge].
+          - rewrite (pend_change p g1 aux0 g aux0 h (eq_sym Hlen)); [|lia|intros r Hne; unfold effc; cbn; symmetry; now apply Hret].
+            unfold effc. cbn [a_eff aux0]. rewrite Hh. cbn [countZ]. lia.
+          - rewrite (get_rec_ge g h Hge). cbn. f_equal. symmetry. apply (pend_ext p g aux0 g1 aux0 Hlen).
+            intros r Hr. unfold effc; cbn. apply Hret. lia. }
+        lia.
       + intros p. destruct (B4 p). split; cnt_norm; lia.
       + intros r Hr. apply B5. destruct (Nat.eq_dec r h) as [->|Hne]; [exact Hh|]. now rewrite Hret.
       + intros x [<-|Hx]; [apply B5; exact Hh|now apply B6].
@@ -284,7 +286,7 @@ Section Seq.
       - apply B5. unfold g1'. rewrite get_rec_ge; [reflexivity|]. cbn. lia. }
     split; [|split].
     - intros p. rewrite (A3 p). cnt_norm.
-      assert (Et : tot p g1 = tot p g1') by reflexivity. rewrite Et, (B3 p).
+      assert (Et : tot p g1 = tot p g1') by (unfold tot; symmetry; apply pend_ext; [reflexivity|intros; reflexivity]). rewrite Et, (B3 p).
       rewrite (tot_zero p g2) by (intros; apply Hz). lia.
     - intros p. destruct (A4 p), (B4 p). split; cnt_norm; lia.
     - exact Hz.
